@@ -134,6 +134,7 @@ pub fn generate(seed: u64, n: usize, _thorough: bool, _corpus: Option<&str>) -> 
     let mut models: Vec<(LinearModel, &str)> = vec![(seeded_knapsack(), "seeded-knapsack")];
     for i in 0..n {
         models.push(match i % 4 {
+            0 if i % 8 == 4 => (gen_lp::permuted_domain(&mut r, false), "permuted-domain-order"),
             0 => (knapsack(&mut r), "knapsack"),
             1 => (gen_lp::model(&mut r, &LpCfg { doms: Doms::Integer, naming: 0, max_vars: 5, feasible_pct: 80, allow_satisfy: false, ..LpCfg::default() }).0, "integer"),
             2 => (gen_lp::model(&mut r, &LpCfg { doms: Doms::Mixed, naming: 0, feasible_pct: 80, allow_satisfy: false, ..LpCfg::default() }).0, "mixed"),
